@@ -148,3 +148,26 @@ theorem ljacinv_mul_ljac (t : SE2T K)
       | linear_combination (-(t.y * (1 - Transc.cos t.ang))) * hsc
 end SE2T
 end Manif
+
+namespace Manif
+open Matrix
+
+/-- block-triangular inverse: if `Ji · J = 1` then `[Ji, -Ji Q Ji; 0, Ji] · [J, Q; 0, J] = 1` — any `Q`. -/
+theorem block_tri_inv (Ji J Q : Matrix (Fin 3) (Fin 3) ℝ) (h : Ji * J = 1) :
+    Matrix.fromBlocks Ji (-Ji * Q * Ji) 0 Ji * Matrix.fromBlocks J Q 0 J = 1 := by
+  rw [Matrix.fromBlocks_multiply]
+  simp only [zero_mul, add_zero, mul_zero, zero_add, h]
+  have : Ji * Q + -Ji * Q * Ji * J = 0 := by
+    rw [Matrix.mul_assoc (-Ji * Q) Ji J, h, mul_one, neg_mul, add_neg_cancel]
+  rw [this, Matrix.fromBlocks_one]
+
+namespace SE3T
+/-- **SE3: `Jl⁻¹ · Jl = I`** (6×6), from the SO3 identity — for every translation part. -/
+theorem ljacinv_mul_ljac (t : SE3T ℝ) (h : realEps < t.ang.x * t.ang.x + (t.ang.y * t.ang.y + t.ang.z * t.ang.z))
+    (hs : Real.sin (Real.sqrt (t.ang.x * t.ang.x + (t.ang.y * t.ang.y + t.ang.z * t.ang.z)) / 2) ≠ 0) :
+    (ljacinv t).toMatrix * (ljac t).toMatrix = 1 := by
+  have h3 := SO3T.ljacinv_mul_ljac t.asSO3 h hs
+  simp only [ljacinv, ljac, M6.toMatrix, M3.toMatrix_mul, M3.toMatrix_neg, M3.toMatrix_zero]
+  exact block_tri_inv _ _ _ h3
+end SE3T
+end Manif
